@@ -65,12 +65,28 @@ def parse_sentences(reply):
     return ('Raise', name.strip())
 
 
+_LAST = {'aliasing': None}
+
+
 def impl_call(fn, *a, **kw):
+    _LAST['aliasing'] = None
     try:
         r = fn(*a, **kw)
     except Exception as e:     # noqa: BLE001  -- the class name is the observation
         return ('Raise', type(e).__name__)
-    return ('Ok', list(r))
+    out = list(r)
+    # result independence: the returned list belongs to the caller.  Empty it and encode the same thing again: the second
+    # result must be the same sentences (an encoder that hands out a list it also keeps in a cache shows only here)
+    if isinstance(r, list) and r:
+        r.clear()
+        try:
+            again = list(fn(*a, **kw))
+        except Exception as e:     # noqa: BLE001
+            again = [f'<{type(e).__name__}>']
+        if again != out:
+            _LAST['aliasing'] = (f'{fn.__name__} called a second time with the same arguments (after the caller emptied the first '
+                                 f'result) returns {again[:2]!r}, the first time {out[:2]!r}')
+    return ('Ok', out)
 
 
 # ---------------------------------------------------------------------------------------------------
@@ -271,8 +287,10 @@ def run_direct(ctx, cases, want_samples=True):
     import pyais
     rep = ctx.rep
     impl = []
+    aliasing = []
     for kind, p, t, c, f, _ in cases:
         impl.append(impl_call(pyais.ais_to_nmea_0183, p, t, c, f))
+        aliasing.append(_LAST['aliasing'])
     lines = []
     for (kind, p, t, c, f, orc), im in zip(cases, impl):
         if is_latin1(p + t + c):
@@ -289,6 +307,9 @@ def run_direct(ctx, cases, want_samples=True):
         rep.count(f'direct/fragments:{min(len(im[1]), 10) if im[0] == "Ok" else "exception"}')
         replay = {'entry': 'ais_to_nmea_0183', 'payload': p, 'talker': t, 'channel': c, 'fill': f}
         label = f'ais_to_nmea_0183(<{len(p)} chars>, {t!r}, {c!r}, {f})'
+        if aliasing[i]:
+            rep.violation({'entry': 'ais_to_nmea_0183', 'component': 'result-independence', 'kind': 'aliased-result'},
+                          f'{label}: {aliasing[i]}', dict(replay, aliasing=True))
         if replies is not None:
             model = parse_sentences(replies[2 * i]) if lines[2 * i].startswith('frame') else ('Raise', 'Unmodelled')
             if model == ('Raise', 'Unmodelled'):
@@ -498,7 +519,7 @@ def run_messages(ctx, cases, want_samples=True):
                                 ('AIVDM', ''), ('AIVDO', 'AB'), ('AIVDO', 'a'), ('AIVD', 'AB')):
             jobs.append(('encode_dict', 'bad-talker-or-channel', dict(data, type=tid), tid, name, talker, channel, False))
             jobs.append(('encode_msg', 'bad-talker-or-channel', dict(data), tid, name, talker, channel, False))
-    lines, impls, metas = [], [], []
+    lines, impls, metas, aliasing = [], [], [], []
     for entry, kind, d, tid, name, talker, channel, orc in jobs:
         kw = kwargs_text(d)
         if kw is None:
@@ -523,6 +544,7 @@ def run_messages(ctx, cases, want_samples=True):
                 bits = None
         lines.append(f'armorspec {bits}' if bits else 'fmt 0')
         impls.append(im)
+        aliasing.append(_LAST['aliasing'] if im[0] == 'Ok' else None)
         metas.append((entry, kind, d, kw, tid, name, talker, channel, orc, bits))
     replies = ctx.model.ask_many(lines) if ctx.model else None
     spec_lines, spec_idx = [], []
@@ -531,6 +553,9 @@ def run_messages(ctx, cases, want_samples=True):
         rep.case((entry, kw, talker, channel), kind=f'{entry}/{kind}')
         rep.count(f'class:{name}')
         replay = {'entry': entry, 'type': tid, 'data': kw, 'talker': talker, 'channel': channel}
+        if aliasing[i]:
+            rep.violation({'entry': entry, 'component': 'result-independence', 'kind': 'aliased-result'},
+                          f'{entry}({name}): {aliasing[i]}', dict(replay, aliasing=True))
         if replies is not None:
             raw = replies[2 * i]
             model = parse_sentences(raw)
@@ -646,20 +671,17 @@ def replay(ctx, data):
             except Exception as e:      # noqa: BLE001
                 return f'raised {type(e).__name__}'
             return '; '.join(x[1] for x in armor_oracle(b, p, fill, m.ask(f'armorspec {b or "-"}'), decode_into_bit_array)) or None
-        r = once()
-        if r is None and data.get('earlier'):
-            for e in data['earlier'][:data.get('upto', 0)]:       # the same calls as in the recorded run, in order
-                try:
-                    encode_ascii_6(bitarray(e))
-                except Exception:      # noqa: BLE001
-                    pass
-            r = once()
-            if r is not None:
-                r += ' (only after the earlier calls of the recorded run: the result depends on history)'
-        return r
+        for e in (data.get('earlier') or [])[:data.get('upto', 0)]:       # the same calls as in the recorded run, in order,
+            try:                                                          # BEFORE the failing one (trying it alone first
+                encode_ascii_6(bitarray(e))                               # would itself change what a cache holds)
+            except Exception:      # noqa: BLE001
+                pass
+        return once()
     if entry == 'ais_to_nmea_0183':
         p, f = data['payload'], data['fill']
         im = impl_call(pyais.ais_to_nmea_0183, p, talker, channel, f)
+        if data.get('aliasing'):
+            return _LAST['aliasing']
         if im[0] == 'Raise':
             return f'raised {im[1]}'
         if not im[1]:
@@ -675,6 +697,8 @@ def replay(ctx, data):
             return None if entry == 'encode_dict' else f'create raised {type(e).__name__}'
         im = impl_call(pyais.encode_dict, d, talker, channel) if entry == 'encode_dict' \
             else impl_call(pyais.encode_msg, msg, talker, channel)
+        if data.get('aliasing'):
+            return _LAST['aliasing']
         if im[0] == 'Raise':
             return f'raised {im[1]} on an encodable message'
         p, fill = ais.armor(bits)
